@@ -290,8 +290,10 @@ META = {
              '(chi2: chisquare(k)*x_mean/k, k = 4*round(df*dt); reported deviation sqrt(2k)*x_mean/k), that the noise routines'
              ' add exactly the returned array and book-keep noise_mean/noise_std as stated (incl. shared-index sampling with '
              'its length guard), the SNR<->intensity relations and their inverse composition, the quadrature sums of stream '
-             'noise, and that every method a BackgroundDataStream answers to which assigns noise_std pushes the final value to'
-             ' every linked antenna stream afterwards; module-level memo state makes the table comparison fail. Every '
-             "distributional claim (what numpy's samplers return) is trusted, not decided.",
+             'noise and the independence they presuppose (every further noise source draws from a generator seeded with '
+             'numbers drawn from the stream generator, never re-created from the same seed material), and that every method a '
+             'BackgroundDataStream answers to which assigns noise_std pushes the final value to every linked antenna stream '
+             "afterwards; module-level memo state makes the table comparison fail. Every distributional claim (what numpy's "
+             'samplers return) is trusted, not decided.',
     'note': 'Real arithmetic; numpy Generator methods are opaque, only their arguments and post-scaling are compared.',
 }
